@@ -1,6 +1,7 @@
 """C03 - per-frame TP/FP/FN/TN accounting conserves objects."""
 from __future__ import annotations
 
+import warnings
 from typing import Any, Dict, List, Optional
 
 import numpy as np
@@ -157,8 +158,6 @@ def judge(ctx: Ctx, fr: Any, before_results: List[Any], before_gt: List[Any]) ->
         dict(info, n_fp_labelled=len(fplab), n_accounted=len(acc_fp), uncounted=len(set(fplab) - set(acc_fp)), extra=len(set(acc_fp) - set(fplab)), dup=len(acc_fp) - len(set(acc_fp))),
         tap,
     )
-    import warnings
-
     with warnings.catch_warnings():
         warnings.simplefilter("ignore")
         n_fail_old = pf.get_fail_object_num()  # deprecated spelling of get_num_fail()
@@ -198,6 +197,28 @@ def judge(ctx: Ctx, fr: Any, before_results: List[Any], before_gt: List[Any]) ->
         if ok is not None:
             ctx.count("C03.region_checked")
             ctx.check(ok, "C03/ground_truth_outside_critical_region_counted", dict(info, gt=O.describe(g), ego_xyz=ego_xy(g, transforms)), tap)
+
+    # (e) the deprecated spellings of the same split (divide_tp_fp_objects / get_fn_objects) conserve objects too
+    if results and cfg.matching_threshold_list is not None:
+        from perception_eval.evaluation.matching import objects_filter as of_mod
+
+        with warnings.catch_warnings():
+            warnings.simplefilter("ignore")
+            tp2, fp2 = of_mod.divide_tp_fp_objects(results, cfg.target_labels, mode, cfg.matching_threshold_list)
+            fn2 = of_mod.get_fn_objects(crit_gt, results, tp2)
+        ctx.count("C03.deprecated_helpers_checked")
+        ids2 = sorted([id(r) for r in tp2] + [id(r) for r in fp2])
+        ctx.check(
+            ids2 == sorted(id(r) for r in results) and all(r.ground_truth_object is not None for r in tp2) and all(any(r is x for x in fp2) for r in results if r.ground_truth_object is None),
+            "C03/results_not_partitioned_into_tp_fp",
+            dict(info, helper="divide_tp_fp_objects", n_tp=len(tp2), n_fp=len(fp2)),
+            tap,
+        )
+        gt_tp2 = {id(r.ground_truth_object) for r in tp2}
+        want_fn2 = [id(g) for g in crit_gt if id(g) not in gt_tp2]
+        # get_fn_objects identifies ground truths by the library's object equality (pose and label), not by identity
+        if not is2d and len({(round(float(g.state.position[0]), 9), round(float(g.state.position[1]), 9)) for g in crit_gt}) == len(crit_gt):
+            ctx.check([id(g) for g in fn2] == want_fn2, "C03/ordinary_gt_not_tp_plus_fn", dict(info, helper="get_fn_objects", n_fn=len(fn2), expected=len(want_fn2)), tap)
 
     buckets = dict(
         tp=len(tp),
